@@ -66,7 +66,16 @@ def kernel_description(t_unit: Any) -> str:
     """Canonical text of the kernel: every component the generated code depends on, with
     the components loopy itself keeps in (frozen)sets sorted -- str(kernel) prints those in
     set order, which is loopy's presentation, not the kernel."""
-    knl = t_unit.default_entrypoint
+    import loopy as lp
+    L: list[str] = []
+    names = sorted(n for n, c in t_unit.callables_table.items()
+                   if isinstance(c, lp.kernel.function_interface.CallableKernel))
+    for nm in names:
+        L.extend(_one_kernel(t_unit[nm]))
+    return "\n".join(L)
+
+
+def _one_kernel(knl: Any) -> list[str]:
     L: list[str] = [f"KERNEL {knl.name}"]
     for a in knl.args:
         L.append("ARG " + _ANSI.sub("", str(a)))
@@ -85,7 +94,7 @@ def kernel_description(t_unit: Any) -> str:
                  f"within={sorted(insn.within_inames)} deps={sorted(insn.depends_on)} "
                  f"tags={sorted(repr(t) for t in insn.tags)} "
                  f"preds={sorted(str(p) for p in insn.predicates)}")
-    return "\n".join(L)
+    return L
 
 
 def artefacts(case: dict[str, Any]) -> dict[str, str]:
@@ -264,6 +273,14 @@ def run_shard(shard: dict[str, Any], col: common.Collector) -> None:
                     if rec["first"][k] != ref["first"][k]:
                         differs = True
                         a, b = ref["text"][k], rec["text"][k]
+                        if k == "c" and rec["first"].get("kernel") == ref["first"].get("kernel"):
+                            # the translation unit pytato built (entrypoint and every callee
+                            # kernel) is identical; only loopy's C text differs (it names
+                            # specialised callees in hash order)
+                            col.histo("trusted_base_disagreements",
+                                      "loopy:C-text-differs-for-identical-translation-unit:"
+                                      + classify(k, a, b))
+                            continue
                         cls = classify(k, a, b)
                         col.violation(f"C17:differs-between-processes:{k}:{cls}",
                                       f"{k} differs between PYTHONHASHSEED={base_hs} and {hs}: "
